@@ -78,8 +78,8 @@ def gaussian_vs_scipy(kind, mean, covariance, y):
     D = mean.shape[-1]
     lead = mean.shape[:-1]
     try:
-        model = GAUSS[kind](mean=mean.copy(), covariance=covariance.copy())
-        got = np.asarray(model.log_pdf(y.copy()))
+        model = GAUSS[kind](mean=mean.copy(order='K'), covariance=covariance.copy(order='K'))
+        got = np.asarray(model.log_pdf(y.copy(order='K')))
     except Exception as e:  # a valid PD covariance with condition <= 1e8 must be accepted
         return Fail(f'{kind}-raises', f'{GAUSS[kind].__name__}(mean{mean.shape}, covariance{covariance.shape})'
                     f'.log_pdf(y{y.shape}) raised {type(e).__name__}: {e}')
@@ -116,7 +116,7 @@ def cgauss_vs_real_composite(covariance, y):
     D = covariance.shape[-1]
     lead = covariance.shape[:-2]
     try:
-        got = np.asarray(ComplexCircularSymmetricGaussian(covariance=covariance.copy()).log_pdf(y.copy()))
+        got = np.asarray(ComplexCircularSymmetricGaussian(covariance=covariance.copy(order='K')).log_pdf(y.copy(order='K')))
     except Exception as e:
         return Fail('cgauss-raises', f'log_pdf raised {type(e).__name__}: {e}')
     N = y.shape[-2]
@@ -148,9 +148,9 @@ def vmf_vs_scipy(mean, concentration, y):
     D = mean.shape[-1]
     lead = mean.shape[:-1]
     try:
-        model = VonMisesFisher(mean=mean.copy(), concentration=concentration.copy())
-        got = np.asarray(model.log_pdf(y.copy()))
-        pdf = np.asarray(model.pdf(y.copy()))
+        model = VonMisesFisher(mean=mean.copy(order='K'), concentration=concentration.copy(order='K'))
+        got = np.asarray(model.log_pdf(y.copy(order='K')))
+        pdf = np.asarray(model.pdf(y.copy(order='K')))
     except Exception as e:
         return Fail('vmf-raises', f'log_pdf / pdf raised {type(e).__name__}: {e}')
     if not _pdf_is_exp(pdf, got):
@@ -181,9 +181,9 @@ def watson_closed_form(mode, concentration, y):
     D = mode.shape[-1]
     lead = mode.shape[:-1]
     try:
-        model = ComplexWatson(mode=mode.copy(), concentration=concentration.copy())
-        got = np.asarray(model.log_pdf(y.copy()))
-        pdf = np.asarray(model.pdf(y.copy()))
+        model = ComplexWatson(mode=mode.copy(order='K'), concentration=concentration.copy(order='K'))
+        got = np.asarray(model.log_pdf(y.copy(order='K')))
+        pdf = np.asarray(model.pdf(y.copy(order='K')))
     except Exception as e:
         return Fail('watson-raises', f'log_pdf / pdf raised {type(e).__name__}: {e}')
     if not _pdf_is_exp(pdf, got):
@@ -219,9 +219,9 @@ def bingham_closed_form(eigenvectors, eigenvalues, y):
     D = eigenvalues.shape[-1]
     lead = eigenvalues.shape[:-1]
     try:
-        model = ComplexBingham(eigenvectors.copy(), eigenvalues.copy())
-        got = np.asarray(model.log_pdf(y.copy()))
-        pdf = np.asarray(model.pdf(y.copy()))
+        model = ComplexBingham(eigenvectors.copy(order='K'), eigenvalues.copy(order='K'))
+        got = np.asarray(model.log_pdf(y.copy(order='K')))
+        pdf = np.asarray(model.pdf(y.copy(order='K')))
     except Exception as e:
         return Fail('bingham-raises', f'log_pdf / pdf raised {type(e).__name__}: {e}')
     if not _pdf_is_exp(pdf, got):
@@ -258,8 +258,8 @@ def cacg_closed_form(eigenvectors, eigenvalues, y):
     D = eigenvalues.shape[-1]
     lead = eigenvalues.shape[:-1]
     try:
-        got = np.asarray(ComplexAngularCentralGaussian(covariance_eigenvectors=eigenvectors.copy(),
-                                                       covariance_eigenvalues=eigenvalues.copy()).log_pdf(y.copy()))
+        got = np.asarray(ComplexAngularCentralGaussian(covariance_eigenvectors=eigenvectors.copy(order='K'),
+                                                       covariance_eigenvalues=eigenvalues.copy(order='K')).log_pdf(y.copy(order='K')))
     except Exception as e:
         return Fail('cacg-raises', f'log_pdf raised {type(e).__name__}: {e}')
     N = y.shape[-2]
@@ -303,7 +303,7 @@ def vmf_integrates_to_one(mean, concentration, n_polar, n_az, mode, seed):
     else:
         pts, w = du.real_sphere_polar_rule(D, n_polar, Q, rng)
     radius = np.exp(rng.normal(size=(pts.shape[0], 1)))         # log_pdf depends on the direction only
-    lp = VonMisesFisher(mean=mean.copy(), concentration=np.asarray(concentration, dtype=float)).log_pdf(pts * radius)
+    lp = VonMisesFisher(mean=mean.copy(order='K'), concentration=np.asarray(concentration, dtype=float)).log_pdf(pts * radius)
     total = _integral(lp, w)
     if not abs(total - 1) <= QUAD_TOL:
         return Fail('vmf-integral', f'integral of exp(log_pdf) over S^{D - 1} = {total!r}, expected 1 '
@@ -320,7 +320,7 @@ def watson_integrates_to_one(mode, concentration, n, n_phase, grade, seed):
     """integral of exp(ComplexWatson.log_pdf) over the complex unit sphere of C^D is one"""
     D = mode.shape[-1]
     z, w = _complex_rule(D, du.householder(mode), n, n_phase, grade, seed)
-    lp = ComplexWatson(mode=mode.copy(), concentration=np.asarray(concentration, dtype=float)).log_pdf(z)
+    lp = ComplexWatson(mode=mode.copy(order='K'), concentration=np.asarray(concentration, dtype=float)).log_pdf(z)
     total = _integral(lp, w)
     if not abs(total - 1) <= QUAD_TOL:
         return Fail('watson-integral', f'integral of exp(log_pdf) over the complex unit sphere of C^{D} = {total!r}, '
@@ -332,7 +332,7 @@ def bingham_integrates_to_one(eigenvectors, eigenvalues, n, n_phase, grade, seed
     """integral of exp(ComplexBingham.log_pdf) over the complex unit sphere of C^D is one"""
     D = eigenvalues.shape[-1]
     z, w = _complex_rule(D, eigenvectors, n, n_phase, grade, seed)
-    lp = ComplexBingham(eigenvectors.copy(), eigenvalues.copy()).log_pdf(z)
+    lp = ComplexBingham(eigenvectors.copy(order='K'), eigenvalues.copy(order='K')).log_pdf(z)
     total = _integral(lp, w)
     if not abs(total - 1) <= 10 * QUAD_TOL:
         kform = du.bingham_formula_condition(eigenvalues)
@@ -348,8 +348,8 @@ def cacg_integrates_to_area(eigenvectors, eigenvalues, n, n_phase, grade, seed):
     z, w = _complex_rule(D, eigenvectors, n, n_phase, grade, seed)
     rng = np.random.default_rng(seed + 1)
     radius = np.exp(rng.normal(size=(z.shape[0], 1)))           # log_pdf depends on the direction only
-    lp = ComplexAngularCentralGaussian(covariance_eigenvectors=eigenvectors.copy(),
-                                       covariance_eigenvalues=eigenvalues.copy()).log_pdf(z * radius)
+    lp = ComplexAngularCentralGaussian(covariance_eigenvectors=eigenvectors.copy(order='K'),
+                                       covariance_eigenvalues=eigenvalues.copy(order='K')).log_pdf(z * radius)
     area = 2 * np.pi ** D / math.factorial(D - 1)
     total = _integral(lp, w)
     if not abs(total / area - 1) <= QUAD_TOL:
@@ -365,7 +365,7 @@ def _gauss_case(rng, kind, D, lead, cond, ckind, N, ybroadcast):
         if kind == 'full':
             c = m
         elif kind == 'diagonal':
-            c = ev.copy()
+            c = ev.copy(order='K')
         else:
             c = np.array(ev.max())
         return mu, c
@@ -541,7 +541,7 @@ def _search_quadrature(ctx):
             if kappa > kmax:
                 kappa = float(rng.uniform(0.3, 1.0) * kmax)
             ctx.count('quad-watson' + tagp)
-            held = ctx.run(watson_integrates_to_one, mode=U[:, 0].copy(), concentration=kappa,
+            held = ctx.run(watson_integrates_to_one, mode=U[:, 0].copy(order='K'), concentration=kappa,
                            n=min(nmax, du.nodes_for(kappa)), n_phase=n_phase, grade=None, seed=seed)
             if i == 0:
                 ctx.sample({'oracle': 'watson_integrates_to_one', 'D': D, 'kappa': kappa, 'held': held})
@@ -794,7 +794,7 @@ def _corr_bingham(ctx, B):
             ctx.count(f'corr-bingham-{k}')
         for idx in _lead_iter(lead):
             lam_i = lam[idx]
-            _, spread = ComplexBingham._remove_duplicate_eigenvalues(lam_i.copy(), eps=eps)
+            _, spread = ComplexBingham._remove_duplicate_eigenvalues(lam_i.copy(order='K'), eps=eps)
             # conditioning of the alternating sum (rounding of exp / of the differences is amplified by it)
             terms = []
             for j in range(D):
